@@ -95,12 +95,23 @@ def _written_back(old, new, deleted_key=None):
 loop(F_CS, "CachedStore.invalidate_all", 1,
      modifies=[("CachedStore", "_writebacks"), ("KVStore", "_data"), ("KVStore", "_insertion_order")],
      inv=[
-         ("visited-written-back", lambda L: forall(Str, lambda k: implies(
-             contains(L.visited, k) & has(L.self._cache, k),
-             has(L.self._backing_store._data, k)
-             & mk_bool(mval(L.self._backing_store._data, k) == mval(L.self._cache, k))))),
+         ("visited-written-back", lambda L: _visited_written_back(L)),
          ("backing-store-only-receives-dirty-values", lambda L: _backing_frame(L)),
      ])
+
+
+def _visited_written_back(L):
+    """every dirty key enumerated so far has its cached value in the backing store.  Set mode (`for key in
+    self._dirty_keys`) speaks about L.visited; sequence mode (`for key in sorted(self._dirty_keys)`, the
+    C03 hash-seed repair) about the prefix L.seq[0:L.i]"""
+    b = L.self._backing_store
+
+    def written(k):
+        return implies(has(L.self._cache, k), has(b._data, k) & mk_bool(mval(b._data, k) == mval(L.self._cache, k)))
+    if hasattr(L, "visited"):
+        return forall(Str, lambda k: implies(contains(L.visited, k), written(k)))
+    i = L.i.t if hasattr(L.i, "t") else z3.IntVal(L.i)
+    return forall(Int, lambda j: implies((j >= 0) & mk_bool(j.t < i), written(Str.wrap(L.seq.term[j.t]))))
 
 # CachedStore.flush: for key in list(self._dirty_keys): ... yield from backing.put ... ; the body yields, so
 # the whole heap may change in it (modifies="world"); the constant configuration is the frame.
@@ -178,7 +189,9 @@ from happysimulator.components.datastore.write_policies import WriteThrough, Wri
 PROPERTY = {
     "id": "C16",
     "level": "proof",
-    "trusted": ["heap typing of the fields declared in specs/C16.py and specs/common.py"],
+    "trusted": ["heap typing of the fields declared in specs/C16.py and specs/common.py",
+                "pyvc/omap.py: rank-based encoding of OrderedDict / list-of-distinct-items operations",
+                "one-yield generator stubs (pyvc/verify.py make_stub with stub_yield) for the KVStore API"],
     "assumptions": COMMON_ASSUMPTIONS + [
         "cached values are opaque (only identity/equality observable) and are never None (None means 'absent' in the API)",
         "the backing KVStore of a cache layer is unbounded (KVStore._capacity is None): a bounded store that "
@@ -189,8 +202,76 @@ PROPERTY = {
         "set g_tracked) - every one of the nine implementations is checked against the same clauses in part A",
         "on_insert is only required to work for a key that is not tracked (call-site obligation in CachedStore); "
         "TwoQueue/SLRU would track a key twice otherwise",
+        "KVStore.get/put/delete (kv_store.py is not an anchored file) are used through stub_of contracts: wait the "
+        "configured latency (the environment runs), then ONE atomic effect on _data (read / store / remove); "
+        "KVStore.put_sync (used by the repairs) runs inlined",
+        "OrderedDicts and the lists _order/_a1in/_a1out/_access_order are modelled by pyvc/omap.py (position stamps: "
+        "distinct per present key and below the next stamp - typing assumption of that model); a list holding a "
+        "duplicate is OUT-OF-REACH, never assumed away",
+        "random.Random.choice returns a member of its argument, random.Random.sample(p, k) a list of k members of p "
+        "(stub_of, trusted random); min(..., key=f) over a collection of symbolic size is over-approximated by an "
+        "arbitrary member, so Random / SampledLRU / TTL(else-branch) victims are only claimed to be tracked keys",
+        "TTLEviction's clock is an arbitrary side-effect free callable returning a real",
+        "MultiTierCache: tiers are CachedStore instances with their own eviction policies; contracts are checked "
+        "for two tiers (delete: one tier - the two-tier obligations are undecided by z3 on the unrepaired tree); "
+        "the promotion decision (_should_promote, enum-valued field) is an arbitrary boolean",
+        "SoftTTLCache: the clock does not go backwards while get() is suspended (rely)",
     ],
 }
+
+# ---- bounded stand-in (labelled bounded, never counted as proved): ClockEviction uses positional list access
+# (self._keys[self._hand], pop(hand)) which neither z3 sequences nor the rank model of pyvc/omap.py can carry
+def _bounded_clock(seed, tier):
+    """every sequence of interface calls of length <= N over 3 keys, against the set model: the four interface
+    clauses, hand index safety, set(keys) == dom(ref_bits), no exception"""
+    import copy
+    n_max = 6 if tier == "thorough" else 5
+    keys = ["a", "b", "c"]
+    ops = [("ins", k) for k in keys] + [("acc", k) for k in keys] + [("rem", k) for k in keys] + [("evict", None)]
+    viol, count = [], [0]
+
+    def check(p, model, trace):
+        ok = (set(p._keys) == set(p._ref_bits) == model and len(p._keys) == len(set(p._keys))
+              and p._hand >= 0 and (p._hand < len(p._keys) or not p._keys))
+        if not ok and len(viol) < 5:
+            viol.append({"case": "state", "trace": list(trace), "keys": list(p._keys), "hand": p._hand, "model": sorted(model)})
+        return ok
+
+    def rec(p, model, trace):
+        if len(trace) >= n_max:
+            return
+        for op, k in ops:
+            if op == "ins" and k in model:
+                continue            # on_insert is only required for untracked keys
+            q, m = copy.deepcopy(p), set(model)
+            count[0] += 1
+            try:
+                if op == "ins":
+                    q.on_insert(k); m.add(k)
+                elif op == "acc":
+                    q.on_access(k)
+                elif op == "rem":
+                    q.on_remove(k); m.discard(k)
+                else:
+                    v = q.evict()
+                    if (v is None) != (not m) or (v is not None and v not in m):
+                        if len(viol) < 5:
+                            viol.append({"case": "evict", "trace": trace + [(op, k)], "victim": v, "model": sorted(m)})
+                        continue
+                    m.discard(v)
+            except Exception as e:      # noqa: BLE001
+                if len(viol) < 5:
+                    viol.append({"case": "exception", "trace": trace + [(op, k)], "exc": repr(e)})
+                continue
+            if check(q, m, trace + [(op, k)]):
+                rec(q, m, trace + [(op, k)])
+    rec(ClockEviction(), set(), [])
+    return {"evaluations": count[0], "violations": viol}
+
+
+PROPERTY["bounded"] = [{"name": "clock-eviction-vs-set-model",
+                        "bound": "all interface call sequences of length <= 5 (thorough: 6) over 3 keys",
+                        "fn": _bounded_clock}]
 
 # ============================================================================ A. the eviction policies
 # view: tracked(policy) = the set of keys the policy holds.  The same four clauses for every policy
@@ -591,7 +672,8 @@ fn(CachedStore, "delete", args={"key": Str}, uses=POLICY_IFACE + CS_HELPERS + KV
         _no_later_write(s), Not(has(s.self._cache, s.key)))),
     ("result-says-whether-it-existed", lambda s: iff(
         s.result, has(s.old(s.self)._cache, s.key) | has(s.pre(s.self._backing_store)._data, s.key))),
-    ("dirty-only-leaves-written-or-deleted", lambda s: _written_back(s.pre(s.self), s.self, s.key)),
+    # after the latency an entry of the key that is dirty belongs to a LATER write-back put: it must survive
+    ("later-dirty-entry-survives-the-delete", lambda s: _written_back(s.pre(s.self), s.self)),
 ])
 
 # invalidation drops cache entries only; in write-back mode a dirty entry is the only copy of a write, so it
@@ -723,6 +805,23 @@ fn(SoftTTLCache, "invalidate", args={"key": Str}, ensures=[
 fn(SoftTTLCache, "invalidate_all", ensures=[
     ("cache-empty", lambda s: mk_bool(sdom(s.self._cache) == EMPTY_S) & (slen(s.self._cache) == 0)),
     ("no-refresh-tracked", lambda s: mk_bool(sdom(s.self._refreshing_keys) == EMPTY_S))])
+
+
+def _refresh_event(s):
+    r = s.result
+    if r is None:
+        return True
+    if len(r) != 1:
+        return False
+    e = r[0]
+    return same(e.target, s.self) & (e.event_type == "_sttl_refresh") & (ns(e.time) == now_ns(s.self))
+
+
+fn(SoftTTLCache, "_maybe_start_refresh", args={"key": Str}, ensures=[
+    ("at-most-one-refresh-in-flight-per-key", lambda s: iff(s.result is None, has(s.old(s.self)._refreshing_keys, s.key))),
+    ("key-marked-refreshing", lambda s: mk_bool(sdom(s.self._refreshing_keys) == with_(sdom(s.old(s.self)._refreshing_keys), s.key))),
+    ("one-refresh-event-for-this-cache-now", _refresh_event),
+    ("cache-untouched", lambda s: unchanged(s, s.self, "_cache", "_access_order"))])
 
 
 def _delay(y):
@@ -877,7 +976,9 @@ fn(WriteBack, "should_flush", ensures=[
     ("flush-when-dirty-limit-reached", lambda s: iff(s.result, slen(s.self._dirty_keys) >= s.self._max_dirty)),
     ("pure", lambda s: unchanged(s, s.self))])
 fn(WriteBack, "get_keys_to_flush", ensures=[
-    ("exactly-the-dirty-keys", lambda s: mk_bool(sdom(s.result) == sdom(s.self._dirty_keys))),
+    # membership form: holds for a set snapshot (list(set)) and for a sorted list (sorted(set), C03 repair) alike
+    ("exactly-the-dirty-keys", lambda s: forall(Str, lambda k: iff(
+        mk_bool(s.result.__sym_contains__(k)), has(s.self._dirty_keys, k)))),
     ("pure", lambda s: unchanged(s, s.self))])
 fn(WriteAround, "should_write_through", ensures=[("always", lambda s: s.result is True)])
 fn(WriteAround, "on_write", args={"key": Str, "value": Any}, ensures=[
